@@ -449,7 +449,15 @@ func dumpDiff(a, b []string) {
 }
 
 func writeEvidence(vdir string, spec *PropSpec, tier string, seed int64, a *agg, wall, buildSecs, runSecs float64, violations, workers int, tree string) {
-	os.MkdirAll(filepath.Join(vdir, "evidence"), 0o755)
+	// evidence describes a run against /repo itself; runs against a scratch tree (sensitivity tests with
+	// VERIF_REPO) write theirs elsewhere so that the committed files are never overwritten by them
+	evDir := filepath.Join(vdir, "evidence")
+	if d := os.Getenv("VERIF_EVIDENCE_DIR"); d != "" {
+		evDir = d
+	} else if r := os.Getenv("VERIF_REPO"); r != "" && r != "/repo" {
+		evDir = filepath.Join(os.TempDir(), "verif-scratch-evidence")
+	}
+	os.MkdirAll(evDir, 0o755)
 	cov := map[string]interface{}{
 		"evaluations":                 a.runs,
 		"distinct_nontrivial":         len(a.ntHashes),
@@ -499,7 +507,7 @@ func writeEvidence(vdir string, spec *PropSpec, tier string, seed int64, a *agg,
 		"violations":  violations,
 	}
 	b, _ := json.MarshalIndent(ev, "", " ")
-	os.WriteFile(filepath.Join(vdir, "evidence", spec.ID+".json"), b, 0o644)
+	os.WriteFile(filepath.Join(evDir, spec.ID+".json"), b, 0o644)
 }
 
 func maxf(a, b float64) float64 {
